@@ -132,6 +132,10 @@ class StorageSetup(Contract):
         two = S.and_(S.eq(nv, 2 * n + nb), S.gt(n, 0))
         yield ('C08.storage.empty', S.iff(empty, S.eq(n, 0)))
         yield ('C07.storage.lengths', S.or_(empty, S.and_(one, single_ok), S.and_(two, S.or_(S.not_(single_ok), True))))
+        if case['nosim'] and not case['costs_only']:
+            # C05 "with the no-simultaneous option a step never has both charge and discharge": whenever charge and discharge are
+            # separate variables (anything but the loss-free, cost-free one-node storage) the n mode binaries are there
+            yield ('C05.storage.nosimult.binaries_whenever_charge_and_discharge_are_separate', S.or_(empty, S.and_(one, single_ok), two))
         pfx = 'C17.costs_only.storage.equals_full_cost' if case['costs_only'] else 'C02.storage.cost'
         yield (pfx + '/one_var', S.implies(one, lambda: S.forall(n, lambda i: S.eq(c.f(i), -p(i) * d(i) - Hh(i)))))
         yield (pfx + '/two_var', S.implies(two, lambda: S.forall(n, lambda i: S.and_(
